@@ -95,7 +95,7 @@ int main(int argc, char **argv){
   misuse("read(ascii stream with wrong version line)", [&]{ std::stringstream ss("TASMANIAN SG 99.9\nWITH\n"); grid.read(ss, mode_ascii); }, true, true);
   // future file formats, ordered lexicographically as (major, minor): a later major with any minor, the same major with a later minor; the body is a complete valid image where one exists
   { std::string body = "WITHCONFORMAL\nempty\nTASMANIAN SG end\n";
-    if (!grid.empty() && !model.symbolic){ std::stringstream img; grid.write(img, false); std::string b = img.str(); size_t nl = b.find('\n'); if (nl != std::string::npos) body = b.substr(nl + 1); }
+    if (!grid.empty()){ std::stringstream img; grid.write(img, false); std::string b = img.str(); size_t nl = b.find('\n'); if (nl != std::string::npos) body = b.substr(nl + 1); }
     int M = TasmanianSparseGrid::getVersionMajor(), m = TasmanianSparseGrid::getVersionMinor();
     const int fut[7][2] = {{M + 1, 0}, {M + 1, m}, {M + 1, m + 1}, {M + 2, m > 0 ? m - 1 : 0}, {M, m + 1}, {M, m + 10}, {M + 10, m}};
     for (auto &v : fut){ std::string nm = "read(ascii image with future version major" + std::string(v[0] > M ? "+" : "=") + " minor" + (v[1] > m ? "+" : v[1] == m ? "=" : "-") + ")";
@@ -107,7 +107,7 @@ int main(int argc, char **argv){
   misuse("read(ascii stream with unknown grid type)", [&]{ std::stringstream ss("TASMANIAN SG 8.0\nWITHCONFORMAL\nsuperlocal\n"); grid.read(ss, mode_ascii); }, true, true);
   misuse("read(missing file)", [&]{ grid.read("/nonexistent/verif_grid_file"); }, true, true);
   // damaged images of THIS grid (its current state, including pending refinement / construction data): truncated at several places, end marker changed
-  if (!grid.empty()) for (int binary = 1; binary >= (model.symbolic ? 1 : 0); binary--){   // ASCII formatting of symbolic values is not encoded: ASCII images only with concrete values
+  if (!grid.empty()) for (int binary = 1; binary >= 0; binary--){   // (the cut images live in a fresh stream: their numbers are concrete on the explored run)
     std::stringstream img; grid.write(img, binary != 0); std::string bytes = img.str(); size_t L = bytes.size();
     for (size_t cut : {L / 4, L / 2, (3 * L) / 4, L - 9, L - 2, L - 1}){
       if (cut == 0 || cut >= L) continue;
